@@ -108,7 +108,20 @@ class IliSim(Sim):
         return {r[0]: [r[1], r[2]] for r in d['shared']['ilis']}
 
 
+def build_big(seed):
+    rng = subseed(seed, 'universe-big')
+    u = U.generate_big(rng, n=rng.choice([1030, 1100]))
+    order = rng.random() < 0.5
+    plan = [{'op': 'add', 'res': 'r0'}, {'op': 'add_ili', 'file': 'ili0'}]
+    if order:
+        plan.reverse()
+    plan.append({'op': 'add', 'res': 'r1'})
+    return u, plan
+
+
 def build(seed):
+    if subseed(seed, 'big').random() < 0.006:
+        return build_big(seed)     # index of > 1000 rows at the default BATCH_SIZE
     rng = subseed(seed, 'universe')
     prof = U.Profile.draw(rng)
     prof['n_ili_files'] = rng.choice([1, 2, 3])
